@@ -85,8 +85,8 @@ class Sensor(Asset):
                  name = None,
                  data_capacity = float('inf'),
                  value = 0):
-        super().__init__(name, value)
-
+        # Set before super().__init__ because initialize(env) is called
+        # from there if the simulation is already in progress.
         assert data_capacity >= 1, 'Data capacity cannot be less than 1.'
         self._data_capacity = data_capacity
         self._on_sense = []
@@ -99,6 +99,8 @@ class Sensor(Asset):
         self.data = {}
         for p in self._probes:
             self.data[p] = []
+
+        super().__init__(name, value)
 
     def initialize(self, env):
         super().initialize(env)
@@ -188,9 +190,10 @@ class PeriodicSensor(Sensor):
                  name = None,
                  data_capacity = float('inf'),
                  value = 0):
-        super().__init__(probes, name, data_capacity, value)
-
+        # Set before super().__init__ because initialize(env) is called
+        # from there if the simulation is already in progress.
         self._interval = interval
+        super().__init__(probes, name, data_capacity, value)
 
     def initialize(self, env):
         super().initialize(env)
